@@ -152,6 +152,9 @@ def _req_streams(group):
             rep = key not in seen
             seen.add(key)
             yield (name, d), s, rep
+    elif group[0] == "compressed":
+        for label, st in hc.compressed_request_streams():
+            yield label, st, True
     elif group[0] == "limits":
         cfg = REQ_CONFIGS[group[1]]
         mls, mfs, mh = cfg.get("max_line_size", 8190), cfg.get("max_field_size", 8190), cfg.get("max_headers", 128)
@@ -211,6 +214,7 @@ def run(ctx):
         for i in range(nb):
             jobs.append(("request", ("base", i), c, c in two_for))
         jobs.append(("request", ("limits", c), c, True))
+        jobs.append(("request", ("compressed",), c, True))
         jobs.append(("tiny", None, c, False))
         for r in range(len(hc.response_streams())):
             jobs.append(("response", r, c, True))
